@@ -33,7 +33,8 @@ def nontrivial(r):
 
 
 def corpus():
-    out = ["map.dec 1 2 %s none" % hx("AAAA,GAAIA,GAAI,EACR,IAAIA,GAAK,EAAG,CACVC,MAAM"),
+    out = ["map.dec 1 0 %s none" % hx(";" * 255 + "AAAA;AACA;;AACA"), "map.dec 1 0 %s none" % hx(";" * 65535 + "AAAA;AACA;;AACA"),   # line numbers past 8 / 16 bits
+           "map.dec 1 2 %s none" % hx("AAAA,GAAIA,GAAI,EACR,IAAIA,GAAK,EAAG,CACVC,MAAM"),
            "map.dec 1 0 %s none" % hx("K,IAGA,J"), "map.dec 1 0 - none", "map.dec 1 0 %s none" % hx(";;;"), "map.dec 0 0 %s none" % hx(",,;,A,")]
     sx = D.sx
     out += [
